@@ -9,7 +9,7 @@ lane() {
     [ -d $d ] || continue
     out=$(TIER=$TIER TAIL=400 tools/seeded.sh check $d 2>&1)
     rc=$(echo "$out" | grep -oE "rc=[0-9]+" | tail -1 | cut -d= -f2)
-    base=$(echo "$out" | grep -q "using base commit" && echo "base-commit" || echo HEAD)
+    base=$(echo "$out" | grep -q "using base commit" && echo "base-commit" || (echo "$out" | grep -q "using the rebased patch" && echo rebased || echo HEAD))
     unit=$(echo "$out" | grep -E "^\s+\^.* violation " | head -1 | awk '{print $1}')
     printf "%s\t%s\t%s\t%s\t%s\n" "$(basename $d)" "$p" "$base" "${rc:-?}" "${unit:--}"
   done
